@@ -32,32 +32,65 @@ use serde_json::{Value, json};
 use util::{Out, guarded, quiet_panics, read_lines};
 
 // ---------------------------------------------------------------------------------------------------
-// counting waker: one per task; clones share the counter and the vtable (so `will_wake` is exact)
+// Counting wakers.  Every poll / wait of a task hands the object a FRESH waker (a new generation: `will_wake` is
+// false against every earlier one).  Only an invocation of the task's LATEST generation counts as a wake-up of the
+// task (`cnt`); invocations of older generations are counted separately (`stale`) and are spurious for the spec:
+// the Future contract obliges an object to wake the waker of the most recent poll only.  Objects whose documented
+// contract is "always the same waker" (they panic / assert on a different one) get the same generation on every poll.
+pub struct TaskState {
+    latest: AtomicUsize,
+    pub cnt: AtomicUsize,
+    pub stale: AtomicUsize,
+}
+struct GenWaker {
+    task: Arc<TaskState>,
+    generation: usize,
+}
+impl GenWaker {
+    fn invoked(&self) {
+        if self.generation == self.task.latest.load(SeqCst) {
+            self.task.cnt.fetch_add(1, SeqCst);
+        } else {
+            self.task.stale.fetch_add(1, SeqCst);
+        }
+    }
+}
 static VT: RawWakerVTable = RawWakerVTable::new(vt_clone, vt_wake, vt_wake_by_ref, vt_drop);
 unsafe fn vt_clone(p: *const ()) -> RawWaker {
-    unsafe { Arc::increment_strong_count(p as *const AtomicUsize) };
+    unsafe { Arc::increment_strong_count(p as *const GenWaker) };
     RawWaker::new(p, &VT)
 }
 unsafe fn vt_wake(p: *const ()) {
-    let a = unsafe { Arc::from_raw(p as *const AtomicUsize) };
-    a.fetch_add(1, SeqCst);
+    let a = unsafe { Arc::from_raw(p as *const GenWaker) };
+    a.invoked();
 }
 unsafe fn vt_wake_by_ref(p: *const ()) {
-    unsafe { &*(p as *const AtomicUsize) }.fetch_add(1, SeqCst);
+    unsafe { &*(p as *const GenWaker) }.invoked();
 }
 unsafe fn vt_drop(p: *const ()) {
-    drop(unsafe { Arc::from_raw(p as *const AtomicUsize) });
+    drop(unsafe { Arc::from_raw(p as *const GenWaker) });
 }
 
 pub struct Task {
-    pub cnt: Arc<AtomicUsize>,
+    pub st: Arc<TaskState>,
+    /// the waker of the current generation
     pub waker: Waker,
 }
 impl Task {
+    fn make(st: &Arc<TaskState>, generation: usize) -> Waker {
+        let g = Arc::new(GenWaker { task: st.clone(), generation });
+        let raw = RawWaker::new(Arc::into_raw(g) as *const (), &VT);
+        unsafe { Waker::from_raw(raw) }
+    }
     pub fn new() -> Self {
-        let cnt = Arc::new(AtomicUsize::new(0));
-        let raw = RawWaker::new(Arc::into_raw(cnt.clone()) as *const (), &VT);
-        Task { cnt, waker: unsafe { Waker::from_raw(raw) } }
+        let st = Arc::new(TaskState { latest: AtomicUsize::new(0), cnt: AtomicUsize::new(0), stale: AtomicUsize::new(0) });
+        let waker = Self::make(&st, 0);
+        Task { st, waker }
+    }
+    /// a new generation for the next poll
+    pub fn renew(&mut self) {
+        let g = self.st.latest.fetch_add(1, SeqCst) + 1;
+        self.waker = Self::make(&self.st, g);
     }
 }
 
@@ -151,6 +184,11 @@ pub trait Inst {
     }
     /// called at the end of a run (release helper threads)
     fn finish(&mut self) {}
+    /// false: the object's documented contract is that it is always polled with the same waker (it panics / asserts
+    /// on a different one), so the task keeps one waker generation for its whole life
+    fn fresh_wakers(&self) -> bool {
+        true
+    }
 }
 
 pub struct Spec {
@@ -195,12 +233,15 @@ fn watchdog() {
 }
 
 fn wk(tasks: &[Task]) -> Value {
-    json!(tasks.iter().map(|t| t.cnt.load(SeqCst)).collect::<Vec<_>>())
+    json!(tasks.iter().map(|t| t.st.cnt.load(SeqCst)).collect::<Vec<_>>())
+}
+fn stale(tasks: &[Task]) -> Value {
+    json!(tasks.iter().map(|t| t.st.stale.load(SeqCst)).collect::<Vec<_>>())
 }
 
 /// Executes one call order on a fresh instance.  Returns the recorded events, or None if a call was not applicable.
 fn run_one(spec: &Spec, class: &str, ops: &[Value]) -> Option<Vec<Value>> {
-    let tasks = [Task::new(), Task::new()];
+    let mut tasks = [Task::new(), Task::new()];
     let mut inst = match guarded(|| (spec.make)()) {
         Ok(i) => i,
         Err(msg) => {
@@ -210,7 +251,8 @@ fn run_one(spec: &Spec, class: &str, ops: &[Value]) -> Option<Vec<Value>> {
             ]);
         }
     };
-    let mut evs = vec![json!({"ev": "reset", "inst": spec.name, "class": class, "consume": inst.consume(), "cond0": inst.cond0()})];
+    let fresh = inst.fresh_wakers();
+    let mut evs = vec![json!({"ev": "reset", "inst": spec.name, "class": class, "consume": inst.consume(), "cond0": inst.cond0(), "fresh": fresh})];
     let mut dropped = false;
     for op in ops {
         PROGRESS.fetch_add(1, SeqCst);
@@ -218,8 +260,12 @@ fn run_one(spec: &Spec, class: &str, ops: &[Value]) -> Option<Vec<Value>> {
         let name = a[0].as_str().unwrap();
         let w = a.get(1).and_then(|x| x.as_u64()).unwrap_or(0) as usize;
         let s = a.get(if name == "check" { 2 } else { 1 }).and_then(|x| x.as_str()).unwrap_or("");
+        let ti = w.saturating_sub(1).min(1);
+        if fresh && (name == "poll" || name == "wait") {
+            tasks[ti].renew();
+        }
         let r: Result<Option<Vec<Value>>, String> = guarded(|| {
-            let mut cx = Context::from_waker(&tasks[w.saturating_sub(1).min(1)].waker);
+            let mut cx = Context::from_waker(&tasks[ti].waker);
             Some(match name {
                 "poll" => vec![json!({"ev": "poll", "w": w, "r": inst.poll(w - 1, &mut cx)?})],
                 "check" => vec![json!({"ev": "check", "w": w, "s": s, "r": inst.check(w - 1, s)?})],
@@ -257,6 +303,7 @@ fn run_one(spec: &Spec, class: &str, ops: &[Value]) -> Option<Vec<Value>> {
             Ok(Some(list)) => {
                 for mut ev in list {
                     ev["wk"] = wk(&tasks);
+                    ev["stale"] = stale(&tasks);
                     evs.push(ev);
                 }
             }
